@@ -6,6 +6,7 @@ from ..symx import run_paths
 from ..lin import Form
 from ..cfg import CFG
 from .. import storage
+from ..pathcond import rimplied
 
 MANIFEST = {
     'technique': 'must-follow rule on every re-binding of a stream\'s indexer or of the indexer\'s data (phase views and equilibrium caches must be refreshed or dropped); branch-shape rule for the upper/lower-case phase fallback; field-provenance rule for save/restore; alignment rule for whole-array copies',
@@ -135,12 +136,14 @@ def case_fallback(ctx, d2):
     for cname, mname, rel in sites:
         f = prog.method(cname, mname, rel=rel)
         found = False
+        pp = f.params[1]
         for n in walk_no_nested(f.node):
             if isinstance(n, ast.If) and isinstance(n.test, ast.Compare) and isinstance(n.test.ops[0], ast.NotIn) \
-                    and src(n.test.left) == 'phase' and src(n.test.comparators[0]) == 'phases':
+                    and isinstance(n.test.left, ast.Name) and src(n.test.comparators[0]) == pp:
+                X = n.test.left.id
                 inner = n.body[0] if n.body else None
-                okk = isinstance(inner, ast.If) and src(inner.test) == 'phase.isupper()' \
-                    and src(inner.body[0]) == 'phase = phase.lower()' and inner.orelse and src(inner.orelse[0]) == 'phase = phase.upper()' \
+                okk = isinstance(inner, ast.If) and src(inner.test) == '%s.isupper()' % X \
+                    and src(inner.body[0]) == '%s = %s.lower()' % (X, X) and inner.orelse and src(inner.orelse[0]) == '%s = %s.upper()' % (X, X) \
                     and not n.orelse
                 found = True
                 if okk:
@@ -151,9 +154,10 @@ def case_fallback(ctx, d2):
             d2.fail('%s.%s' % (cname, mname), 'no-fallback-guard', 'phase label is remapped without testing that the exact label is absent', f, f.node)
     # distinct source phases can fold onto one target row (l and L -> l): the fold must be additive into a blank indexer
     f = prog.method('MaterialIndexer', 'to_material_indexer', rel=IX)
+    blank = [n for n in walk_no_nested(f.node) if isinstance(n, ast.Assign) and isinstance(n.targets[0], ast.Name) and '.blank(' in src(n.value)]
+    MI = blank[0].targets[0].id if blank else None
     st = [n for n in walk_no_nested(f.node) if isinstance(n, (ast.Assign, ast.AugAssign)) and any(
-        isinstance(t, ast.Subscript) and src(t.value) == 'material_indexer' for t in (n.targets if isinstance(n, ast.Assign) else [n.target]))]
-    blank = [n for n in walk_no_nested(f.node) if isinstance(n, ast.Assign) and src(n.targets[0]) == 'material_indexer' and '.blank(' in src(n.value)]
+        isinstance(t, ast.Subscript) and src(t.value) == MI for t in (n.targets if isinstance(n, ast.Assign) else [n.target]))]
     if len(st) == 1 and isinstance(st[0], ast.AugAssign) and isinstance(st[0].op, ast.Add) and blank:
         d2.ok('MaterialIndexer.to_material_indexer', 'rows folding onto the same target phase are added into a blank indexer', f, st[0])
     else:
@@ -162,14 +166,20 @@ def case_fallback(ctx, d2):
     f = prog.method('PhaseIndexer', '__new__', rel=PH)
     ok3 = False
     for n in walk_no_nested(f.node):
-        if isinstance(n, ast.If) and src(n.test) == 'phase not in index' and len(n.body) == 1 and src(n.body[0]) == 'index[phase] = n':
-            ok3 = True
+        if isinstance(n, ast.If) and isinstance(n.test, ast.Compare) and isinstance(n.test.ops[0], ast.NotIn) and len(n.body) == 1 \
+                and isinstance(n.body[0], ast.Assign) and isinstance(n.body[0].targets[0], ast.Subscript):
+            X, D = src(n.test.left), src(n.test.comparators[0])
+            t = n.body[0].targets[0]
+            if src(t.value) == D and src(t.slice) == X:
+                ok3 = True
     if ok3:
         d2.ok('PhaseIndexer.__new__', 'the flipped-case alias is registered only when that label is not a real phase', f)
     else:
         d2.fail('PhaseIndexer.__new__', 'alias-overrides', 'the flipped-case alias may override a real phase label', f, f.node)
     g = prog.method('MaterialIndexer', 'mix_from', rel=IX)
-    lp = [n for n in walk_no_nested(g.node) if isinstance(n, ast.For) and 'other_phases.difference(phases)' in src(n.iter)]
+    own = {t.id for n in walk_no_nested(g.node) if isinstance(n, ast.Assign) and src(n.value) == 'self._phases' for t in n.targets if isinstance(t, ast.Name)}
+    lp = [n for n in walk_no_nested(g.node) if isinstance(n, ast.For) and isinstance(n.iter, ast.Call) and isinstance(n.iter.func, ast.Attribute)
+          and n.iter.func.attr == 'difference' and n.iter.args and src(n.iter.args[0]) in own]
     if lp:
         d2.ok('MaterialIndexer.mix_from', 'case aliases are created only for inlet phases absent from the receiver', g, lp[0])
     else:
@@ -268,13 +278,8 @@ def alignment(ctx, d5):
                 whole = 'data[:, left] = other[:, right]'
             if whole is None:
                 continue
-            same = None
-            for t, taken in p.conds:
-                if isinstance(t, str):
-                    continue
-                s = src(t)
-                if s in ('phase_indexer is other_phase_indexer', 'other_phase_indexer is phase_indexer'):
-                    same = taken
+            o_ = f.params[1]
+            same = rimplied(p, lambda t: t in ('(self._phase_indexer is %s._phase_indexer)' % o_, '(%s._phase_indexer is self._phase_indexer)' % o_))
             key = (e.stmt.lineno, whole)
             if same is True:
                 seen.setdefault(key, []).append((True, e))
